@@ -93,6 +93,8 @@ CORE = [
     "F2.prototype = Object.create(F1.prototype)",
     "Object.assign(o3, o1)",
     "o2.m = F1.prototype.m",
+    'Object.defineProperty(o1, "a", {value: 2, writable: true, enumerable: false, configurable: true})',
+    'Object.defineProperty(o1, "a", {value: 2, writable: true, enumerable: true, configurable: true})',
 ]
 assert all(c in FULL for c in CORE) and len(set(FULL)) == len(FULL)
 
